@@ -23,7 +23,18 @@ func (r *ReadFS) OpenFile(path string, flag experimentalsys.Oflag, perm fs.FileM
 	default: // sys.O_RDONLY (integer zero) so we are ok!
 	}
 
+	// Even a read-only open modifies the file system when it truncates or
+	// creates: neither is possible here.
+	if flag&experimentalsys.O_TRUNC != 0 {
+		return nil, experimentalsys.EROFS
+	}
+	create := flag&experimentalsys.O_CREAT != 0
+	flag &^= experimentalsys.O_CREAT | experimentalsys.O_EXCL
+
 	f, errno := r.FS.OpenFile(path, flag, perm)
+	if errno == experimentalsys.ENOENT && create {
+		return nil, experimentalsys.EROFS // the file would have to be created.
+	}
 	if errno != 0 {
 		return nil, errno
 	}
